@@ -73,6 +73,170 @@ def _is_enc_detector_call(test):
     return False
 
 
+# ----------------------------------------------------------------------------- PDF decision -> PdfTest
+class _Untranslatable(ValueError):
+    pass
+
+
+def _pdf_value(node, env):
+    """run-time integer value of a constant sub-expression (literal, module-level name, Enum attribute)"""
+    try:
+        v = eval(compile(ast.Expression(node), "<read_pdf>", "eval"), dict(env))
+    except Exception as e:  # noqa
+        raise _Untranslatable(f"cannot evaluate {ast.unparse(node)!r}: {e!r}")
+    if isinstance(v, bool) or not isinstance(v, int):
+        raise _Untranslatable(f"{ast.unparse(node)!r} is not an integer ({v!r})")
+    return int(v)
+
+
+def _pdf_cmp(op, c, flipped):
+    """(lean text, python predicate) of `v <op> c` (or `c <op> v` when flipped)"""
+    if flipped:
+        op = {ast.Lt: ast.Gt, ast.LtE: ast.GtE, ast.Gt: ast.Lt, ast.GtE: ast.LtE}.get(type(op), type(op))()
+    nat = lambda x: max(x, 0)
+    if isinstance(op, (ast.Eq, ast.Is)):
+        return ("(.const false)", lambda v: False) if c < 0 else (f"(.eq {c})", lambda v: v == c)
+    if isinstance(op, (ast.NotEq, ast.IsNot)):
+        return ("(.const true)", lambda v: True) if c < 0 else (f"(.ne {c})", lambda v: v != c)
+    if isinstance(op, ast.Lt):
+        return f"(.lt {nat(c)})", lambda v: v < c
+    if isinstance(op, ast.LtE):
+        return f"(.lt {nat(c + 1)})", lambda v: v <= c
+    if isinstance(op, ast.GtE):
+        return f"(.ge {nat(c)})", lambda v: v >= c
+    if isinstance(op, ast.Gt):
+        return f"(.ge {nat(c + 1)})", lambda v: v > c
+    raise _Untranslatable(f"comparison operator {type(op).__name__}")
+
+
+def _pdf_test(node, var, env):
+    """(lean PdfTest text, python predicate over ints) of a test expression over the one variable `var`"""
+    is_var = lambda n: (isinstance(n, ast.Name) and n.id == var) or (
+        isinstance(n, ast.Call) and isinstance(n.func, ast.Name) and n.func.id == "int" and len(n.args) == 1 and not n.keywords
+        and isinstance(n.args[0], ast.Name) and n.args[0].id == var)
+    if is_var(node):
+        return ".truthy", lambda v: v != 0
+    if isinstance(node, ast.Constant) and isinstance(node.value, bool):
+        return f"(.const {'true' if node.value else 'false'})", lambda v, b=node.value: b
+    if isinstance(node, ast.UnaryOp) and isinstance(node.op, ast.Not):
+        t, f = _pdf_test(node.operand, var, env)
+        return f"(.not {t})", lambda v: not f(v)
+    if isinstance(node, ast.BoolOp):
+        parts = [_pdf_test(x, var, env) for x in node.values]
+        ctor, comb = (".and", all) if isinstance(node.op, ast.And) else (".or", any)
+        text, fs = parts[0][0], [p[1] for p in parts]
+        for t, _ in parts[1:]:
+            text = f"({ctor} {text} {t})"
+        return text, lambda v: comb(f(v) for f in fs)
+    if isinstance(node, ast.Compare):
+        parts, left = [], node.left
+        for op, right in zip(node.ops, node.comparators):
+            if isinstance(op, (ast.In, ast.NotIn)):
+                if not is_var(left) or not isinstance(right, (ast.Tuple, ast.List, ast.Set, ast.Name, ast.Attribute)):
+                    raise _Untranslatable(ast.unparse(node))
+                if isinstance(right, (ast.Tuple, ast.List, ast.Set)):
+                    vals = [_pdf_value(e, env) for e in right.elts]
+                else:
+                    try:
+                        vals = [int(x) for x in eval(compile(ast.Expression(right), "<read_pdf>", "eval"), dict(env))]
+                    except Exception as e:  # noqa
+                        raise _Untranslatable(f"cannot enumerate {ast.unparse(right)!r}: {e!r}")
+                if any(x < 0 for x in vals):
+                    raise _Untranslatable("negative member")
+                t, f = f"(.mem [{', '.join(map(str, vals))}])", (lambda v, vals=tuple(vals): v in vals)
+                if isinstance(op, ast.NotIn):
+                    t, f = f"(.not {t})", (lambda v, f=f: not f(v))
+            elif is_var(left) and not is_var(right):
+                t, f = _pdf_cmp(op, _pdf_value(right, env), False)
+            elif is_var(right) and not is_var(left):
+                t, f = _pdf_cmp(op, _pdf_value(left, env), True)
+            else:
+                raise _Untranslatable(ast.unparse(node))
+            parts.append((t, f))
+            left = right
+        text, fs = parts[0][0], [p[1] for p in parts]
+        for t, _ in parts[1:]:
+            text = f"(.and {text} {t})"
+        return text, lambda v: all(f(v) for f in fs)
+    raise _Untranslatable(ast.unparse(node))
+
+
+def _pdf_decision(pfn, env, PasswordType, notes):
+    raises_enc = lambda n: any(isinstance(r, ast.Raise) and r.exc is not None and "ExtractionFileEncryptedError" in ast.unparse(r.exc)
+                               for r in ast.walk(n))
+    # the statements that raise the encrypted error: exactly one `if`, directly under `if <x>.is_encrypted:`
+    outer = [n for n in ast.walk(pfn) if isinstance(n, ast.If) and raises_enc(n)
+             and not any(isinstance(r, ast.Raise) and "ExtractionFileEncryptedError" in ast.unparse(r) for r in n.body if isinstance(r, ast.Raise))]
+    inner = [n for n in ast.walk(pfn) if isinstance(n, ast.If)
+             and any(isinstance(r, ast.Raise) and r.exc is not None and "ExtractionFileEncryptedError" in ast.unparse(r.exc) for r in n.body)]
+    n_raises = sum(1 for r in ast.walk(pfn) if isinstance(r, ast.Raise) and r.exc is not None and "ExtractionFileEncryptedError" in ast.unparse(r.exc))
+    if len(inner) != 1 or n_raises != 1:
+        raise ValueError(f"read_pdf: expected exactly one `if …: raise ExtractionFileEncryptedError`, found {len(inner)} / {n_raises} raise statement(s)")
+    test_if = inner[0]
+    if test_if.orelse:
+        notes.append("read_pdf: the encrypted-error test has an else/elif branch")
+    guards = [n for n in outer if test_if in n.body]
+    if len(guards) != 1 or not (isinstance(guards[0].test, ast.Attribute) and guards[0].test.attr == "is_encrypted"
+                                and isinstance(guards[0].test.value, ast.Name)) or guards[0].orelse:
+        raise ValueError("read_pdf: the encrypted-error test is not directly under a plain `if <reader>.is_encrypted:`")
+    guard = guards[0]
+    reader = guard.test.value.id
+    # the try statement with the decrypt call, before the test, in the same block
+    idx = guard.body.index(test_if)
+    tries = [n for n in guard.body[:idx] if isinstance(n, ast.Try)]
+    others = [n for n in guard.body if n is not test_if and n not in tries and not (isinstance(n, ast.Expr) and isinstance(n.value, ast.Constant))]
+    if len(tries) != 1 or others:
+        raise ValueError(f"read_pdf: decrypt block not recognised ({len(tries)} try statement(s), {len(others)} other statement(s))")
+    tr = tries[0]
+    if len(tr.body) != 1 or not isinstance(tr.body[0], ast.Assign) or len(tr.body[0].targets) != 1 or not isinstance(tr.body[0].targets[0], ast.Name) \
+            or tr.orelse or tr.finalbody:
+        raise ValueError("read_pdf: try body is not `<v> = <reader>.decrypt(…)`")
+    var = tr.body[0].targets[0].id
+    call = tr.body[0].value
+    if not (isinstance(call, ast.Call) and isinstance(call.func, ast.Attribute) and call.func.attr == "decrypt"
+            and isinstance(call.func.value, ast.Name) and call.func.value.id == reader and len(call.args) == 1 and not call.keywords
+            and isinstance(call.args[0], ast.Constant) and isinstance(call.args[0].value, str)):
+        raise ValueError(f"read_pdf: decrypt call not recognised: {ast.unparse(call)}")
+    n_dec = sum(1 for c in ast.walk(pfn) if isinstance(c, ast.Call) and isinstance(c.func, ast.Attribute) and c.func.attr == "decrypt")
+    if n_dec != 1:
+        notes.append(f"read_pdf calls decrypt {n_dec} times")
+    if len(tr.handlers) != 1 or len(tr.handlers[0].body) != 1 or not isinstance(tr.handlers[0].body[0], ast.Assign) \
+            or [ast.unparse(t) for t in tr.handlers[0].body[0].targets] != [var]:
+        raise ValueError("read_pdf: the handler around decrypt is not a single `<v> = <default>`")
+    htype = ast.unparse(tr.handlers[0].type) if tr.handlers[0].type else ""
+    if htype not in ("Exception", ""):
+        notes.append(f"read_pdf: the handler around decrypt catches {htype!r} only")
+    default_node = tr.handlers[0].body[0].value
+    # no re-assignment of <v> between the try and the test (the test sees decrypt's value / the default)
+    stores = [n for n in ast.walk(pfn) if isinstance(n, ast.Name) and n.id == var and isinstance(n.ctx, ast.Store)]
+    if len(stores) != 2:
+        notes.append(f"read_pdf assigns {var} {len(stores)} times")
+
+    # the real compiled test on the real PasswordType members / on the real default object
+    code = compile(ast.Expression(test_if.test), "<read_pdf>", "eval")
+    real = lambda obj: bool(eval(code, dict(env), {var: obj}))
+    types = [(m.name, int(m.value)) for m in PasswordType]
+    try:
+        text, pred = _pdf_test(test_if.test, var, env)
+    except _Untranslatable:
+        # a spelling outside the translated fragment: its value table over pypdf's outcomes (exact on the domain the
+        # K-tied theorems quantify over; the strict all-results reading is not available for it)
+        yes = [v for (_, v), m in zip(types, PasswordType) if real(m)]
+        text, pred = f"(.mem [{', '.join(map(str, yes))}])", (lambda v, yes=tuple(yes): v in yes)
+    for m in PasswordType:
+        if real(m) != bool(pred(int(m.value))):
+            notes.append(f"read_pdf: translated test {text} and the source test {ast.unparse(test_if.test)!r} disagree on PasswordType.{m.name}")
+    try:
+        default_obj = eval(compile(ast.Expression(default_node), "<read_pdf>", "eval"), dict(env))
+    except Exception as e:  # noqa
+        raise ValueError(f"read_pdf: cannot evaluate the handler's default {ast.unparse(default_node)!r}: {e!r}")
+    try:
+        exc_rejects = real(default_obj)
+    except Exception:  # noqa — the test itself fails on the handler's value: the encrypted error is not raised
+        exc_rejects = False
+    return {"password": call.args[0].value, "test": text, "exc_rejects": exc_rejects, "types": types}
+
+
 @generator("Encryption")
 def gen_encryption() -> str:
     notes = []
@@ -221,25 +385,19 @@ def gen_encryption() -> str:
     if None in (enc_path, rights_path, enc_tag):
         raise ValueError(f"_is_epub_encrypted: shape not recognised ({enc_path}, {rights_path}, {enc_tag})")
 
-    # ---- PDF
-    pfn = find_func(PDF, "read_pdf")
-    dec_args = [c.args[0].value for c in ast.walk(pfn) if isinstance(c, ast.Call) and isinstance(c.func, ast.Attribute)
-                and c.func.attr == "decrypt" and c.args and isinstance(c.args[0], ast.Constant)]
-    # `if <x> == <int>: raise ExtractionFileEncryptedError`
-    zero = [n.test.comparators[0].value for n in ast.walk(pfn) if isinstance(n, ast.If) and isinstance(n.test, ast.Compare)
-            and len(n.test.ops) == 1 and isinstance(n.test.ops[0], ast.Eq) and isinstance(n.test.comparators[0], ast.Constant)
-            and any(isinstance(r, ast.Raise) and "ExtractionFileEncryptedError" in ast.unparse(r) for r in n.body)]
-    # `except …: <x> = <int>` around the decrypt call
-    exc_default = []
-    for n in ast.walk(pfn):
-        if isinstance(n, ast.Try) and any("decrypt(" in ast.unparse(b) for b in n.body):
-            for h in n.handlers:
-                exc_default += [a.value.value for a in ast.walk(h) if isinstance(a, ast.Assign) and isinstance(a.value, ast.Constant)]
-    if len(dec_args) != 1 or len(zero) != 1 or len(exc_default) != 1:
-        raise ValueError(f"read_pdf: decrypt shape not recognised ({dec_args}, {zero}, {exc_default})")
+    # ---- PDF: the decision block of read_pdf
+    #     if <reader>.is_encrypted:
+    #         try: <v> = <reader>.decrypt(<literal>)
+    #         except …: <v> = <default>
+    #         if <test over v>: raise ExtractionFileEncryptedError(…)
+    # The test is TRANSLATED (not pattern-matched against one spelling): any boolean combination of comparisons of <v>
+    # with integer-valued constants / names / attributes (resolved at run time in the module's namespace) becomes a
+    # `PdfTest`; the translation is cross-checked by evaluating the real compiled test on every pypdf PasswordType
+    # member, and the value the handler assigns is judged by the real test on the real object.
+    P = fresh_import("sharepoint2text.parsing.extractors.pdf.pdf_extractor")
     from pypdf._encryption import PasswordType
-    if int(PasswordType.NOT_DECRYPTED) != int(zero[0]):
-        notes.append("read_pdf compares decrypt_result with a value that is not pypdf's PasswordType.NOT_DECRYPTED")
+    pfn = find_func(PDF, "read_pdf")
+    pdf = _pdf_decision(pfn, vars(P), PasswordType, notes)
 
     # ---- encryption tests in the registered wrappers: `if <detector>(..): raise ExtractionFileEncryptedError(..)`
     guards = []
@@ -275,9 +433,10 @@ def gen_encryption() -> str:
     L.append("  epubEncPath := " + chars(enc_path))
     L.append("  epubRightsPath := " + chars(rights_path))
     L.append("  epubEncTag := " + chars(enc_tag))
-    L.append("  pdfPassword := " + chars(dec_args[0]))
-    L.append(f"  pdfNotDecrypted := {int(zero[0])}")
-    L.append(f"  pdfOnException := {int(exc_default[0])}")
+    L.append("  pdfPassword := " + chars(pdf["password"]))
+    L.append("  pdfTest := " + pdf["test"])
+    L.append(f"  pdfExcRejects := {'true' if pdf['exc_rejects'] else 'false'}")
+    L.append("  pdfPasswordTypes := [" + ", ".join(f"({lean_str(n)}, {v})" for n, v in pdf["types"]) + "]")
     L.append("}\n")
     L.append("/-- (registered wrapper, tag of its `if <detector>(…): raise ExtractionFileEncryptedError` test in Gen/Wrappers) -/")
     L.append("def guards : List (String × String) := " + lean_list(f"({lean_str(a)}, {lean_str(b)})" for a, b in guards) + "\n")
